@@ -178,6 +178,9 @@ public:
     breakPoints_ = breakPoints;
     computeForward_();
     backLogLikelihoodUpToDate_ = false;
+    // Cached derivatives are no longer valid:
+    dVariable_ = "";
+    d2Variable_ = "";
   }
 
   const std::vector<size_t>& getBreakPoints() const override { return breakPoints_; }
